@@ -268,3 +268,22 @@ _ADD3 = {
 for _k, (_t, _x) in _ADD3.items():
     CLAIMS[_k]['technique'] += _t
     CLAIMS[_k]['text'] += _x
+
+# rules derived from the defect-hunting round (DESIGN.md 12.9)
+_ADD4 = {
+ 'C04': ('; remembered pivot position validated', ' A remembered pivot position is used only after a test that it was found in the column (the sentinel is SLU_EMPTY, not 0).'),
+ 'C06': ('; strict pre-check before un-checked appends', ' An array that is appended to before the capacity test (lsub in ?snode_dfs) is pre-checked with >=.'),
+ 'C08': ('; failure status exceeds n; retry loop gives up at its fixpoint',
+         ' Every failure return of ?LUMemInit is n plus an addend that is positive by construction (n = 0, nnz = 0 included); the give-up test of its retry loop holds once the halved guess is 0.'),
+ 'C12': ('; PivotGrowth scan bound', ' The scan of a supernode column in ?PivotGrowth is bounded by the rows the supernode has.'),
+ 'C13': ('; guard-term symmetry of the BERR ratio', ' A guard term added to the residual in the numerator of the BERR ratio is added to the denominator as well (else BERR > 1 for an exact solution).'),
+ 'C14': ('; scratch cleared with an explicit zero', ' The gemv scratch of sp_?trsv is cleared with a constant whose both parts are written.'),
+ 'C15': ('; ILU guard oracle group', ' ?gsisx returns on info > n before touching L, U and still solves for 0 < info <= n.'),
+ 'C18': ('; first-illegal-argument-wins dataflow (R2.p); narrowed-domain screening',
+         ' R2.p: a may-analysis over the CFG of the screening region shows that no code store is reachable while info already holds a code. A precondition that is only tested under an enclosing guard on one of its own quantities counts as unscreened. The oracle includes B/X column counts of ?gstrs / ?gsrfs and the ColPerm enumeration range.'),
+ 'C19': ('; parked-block rule; bound-before-subscript lint; scratch extent of the relaxed-supernode search',
+         ' A block parked in a caller-owned structure (Glu->expanders) is released on every return that does not report success; a short-circuit condition bounds an index by a dimension before it subscripts with it; arrays handed to the relaxed-supernode search are allocated from the column count.'),
+}
+for _k, (_t, _x) in _ADD4.items():
+    CLAIMS[_k]['technique'] += _t
+    CLAIMS[_k]['text'] += _x
